@@ -4,6 +4,7 @@ CONSTANTS
   Bufs2 = {2,40000}
   Modes = {0}
   Long = FALSE
+  BSizes = {}
   Track = FALSE
 SPECIFICATION FairSpec
 PROPERTIES BothTerminate Terminates
